@@ -579,6 +579,38 @@ func (env *Env) callExpr(n ECall) (Val, error) {
 		default:
 			return boolVal(Eq(cur, IntLit(0))), nil
 		}
+	case "visited":
+		// visited(k): key k was already produced by the map iteration of the enclosing loop
+		if err := argN(1); err != nil {
+			return Val{}, err
+		}
+		k, err := env.evalTerm(n.Args[0])
+		if err != nil {
+			return Val{}, err
+		}
+		name := env.e.visitedName(env.fr)
+		if name == "" {
+			return Val{}, fmt.Errorf("visited() outside a map-range loop")
+		}
+		return boolVal(Select(env.st.comp(name, ArraySort(k.Sort, SBool)), k, SBool)), nil
+	case "hasprefix", "lower", "strfold":
+		var ts []Term
+		for _, a := range n.Args {
+			t, err := env.evalTerm(a)
+			if err != nil {
+				return Val{}, err
+			}
+			ts = append(ts, t)
+		}
+		switch {
+		case fname == "hasprefix" && len(ts) == 2:
+			return boolVal(T(SBool, "(str_hasprefix %s %s)", ts[0], ts[1])), nil
+		case fname == "lower" && len(ts) == 1:
+			return Val{T: types.Typ[types.String], L: []Term{T(SStr, "(str_lower %s)", ts[0])}}, nil
+		case fname == "strfold" && len(ts) == 2:
+			return boolVal(T(SBool, "(str_fold %s %s)", ts[0], ts[1])), nil
+		}
+		return Val{}, fmt.Errorf("bad arguments to %s", fname)
 	case "nolocks":
 		return boolVal(Eq(env.e.heldArr(env.st), T(ArraySort(SInt, SInt), "((as const (Array Int Int)) 0)"))), nil
 	case "sameLocks":
@@ -599,6 +631,42 @@ func (env *Env) callExpr(n ECall) (Val, error) {
 			return Val{}, fmt.Errorf("typeis on non-interface")
 		}
 		return boolVal(Eq(v.L[0], IntLit(int64(env.e.P.typeTag(t))))), nil
+	case "as":
+		// as(x, *T): the payload of interface x viewed as a *T (meaningful only under typeis(x, *T))
+		if err := argN(2); err != nil {
+			return Val{}, err
+		}
+		v, err := env.eval(n.Args[0])
+		if err != nil {
+			return Val{}, err
+		}
+		t, err := env.resolveType(n.Args[1])
+		if err != nil {
+			return Val{}, err
+		}
+		if len(v.L) != 2 {
+			return Val{}, fmt.Errorf("as() on non-interface")
+		}
+		if _, isPtr := t.Underlying().(*types.Pointer); isPtr {
+			return Val{T: t, L: []Term{v.L[1]}}, nil
+		}
+		return env.e.load(env.st, &Addr{Kind: aHeap, Ref: v.L[1], Root: t, T: t}), nil
+	case "content":
+		// abstract value (byte sequence) of a slice's current contents
+		if err := argN(1); err != nil {
+			return Val{}, err
+		}
+		v, err := env.eval(n.Args[0])
+		if err != nil {
+			return Val{}, err
+		}
+		sl, ok := v.T.Underlying().(*types.Slice)
+		if !ok || len(Layout(sl.Elem())) != 1 {
+			return Val{}, fmt.Errorf("content() needs a slice of scalars")
+		}
+		name := "E." + typeID(sl.Elem()) + "."
+		arr := env.st.comp(name, ArraySort(SInt, ArraySort(SInt, SInt)))
+		return Val{T: types.Typ[types.String], L: []Term{T(SStr, "(bytes2str %s %s %s)", Select(arr, v.L[0], ArraySort(SInt, SInt)), v.L[1], v.L[2])}}, nil
 	case "fresh":
 		if err := argN(1); err != nil {
 			return Val{}, err
@@ -727,6 +795,24 @@ func (env *Env) resolveType(x Expr) (types.Type, error) {
 		}
 	}
 	return nil, fmt.Errorf("unknown type %s", x.exprString())
+}
+
+// visitedName: the ghost visited-set of the (single) map range of the function under verification.
+func (e *Engine) visitedName(fr *Frame) string {
+	fn := e.Fn
+	if fr != nil {
+		fn = fr.fn
+	}
+	for _, b := range fn.Blocks {
+		for _, in := range b.Instrs {
+			if r, ok := in.(*ssa.Range); ok {
+				if _, isMap := r.X.Type().Underlying().(*types.Map); isMap {
+					return "V.visited." + r.Name()
+				}
+			}
+		}
+	}
+	return ""
 }
 
 func (e *Engine) knownLabel(lbl string) bool {
